@@ -2,7 +2,8 @@ SPECIFICATION XSpec
 CONSTANTS Widths = {} MaxH = 1 MaxOwn = 1 LimbDom = {0} IdWidths = {} StreamWidths = {}
   MsgDom <- CMsgDom TextDom <- CTextDom
   Transports = {"stream", "dgram"} ConnWidths = {1} IdCand = {1, 2, 3} IdLimit = 3
-  MaxReq = 3 MaxPlain = 1 MaxStray = 1
+  MaxReq = 3 MaxPlain = 0 MaxStray = 1
+  BActs = {"reply"} BHrets <- CHretsFail SyncMax = 0
 VIEW XView
 INVARIANTS XTypeOK Distinct XRefines AtMostOnce IdsFit HeaderOK TypeOK
 PROPERTIES RightWaiter EndToEnd ReserveTiers Recycle StreamOnce Final
